@@ -42,10 +42,11 @@ class WriterFacts:
         self.call, self.callctx = calls[0]
         params = self.ci.params[1:]
         self.actual = dict(zip(params, self.call.args))
+        self.actual.update({k: v for k, v in getattr(self.call, 'kw', ()) if k in params})
         # document of the instance text, expressed over create_instance's own parameters
         it2 = Interp(repo)
         try:
-            _, rv = it2.run(self.ci, {})
+            self.ci_effs, rv = it2.run(self.ci, {})
         except Unknown as u:
             raise AnalysisError('%s.create_instance outside the interpreted fragment: %s' % (cls, u))
         self.text = rv
